@@ -51,6 +51,11 @@ pub fn signature(prop: Prop, f: &Fail, e: &Edge) -> String {
 fn h64(s: &str) -> u64 { let mut h = std::collections::hash_map::DefaultHasher::new(); s.hash(&mut h); h.finish() }
 
 impl VecModel {
+    /// crash marker: what is about to run (config | state | edge | fault | signature stem)
+    fn mark(&self, s: &McState, e: &Edge, fault_at: u32) {
+        crate::crash::set_current(&format!("config={} | state=len={} cap={} spare={:?} | edge={:?} | fault_at={} | stem={}/{}/{}/{}",
+            self.runner.name(), s.len, s.cap, s.spare, e, fault_at, e.family(), e.api(), e.src_kind(), e.sink_kind()));
+    }
     /// classify the failures of one execution; returns the hash of the first unlisted signature
     fn classify(&self, st: &McState, e: &Edge, out: &Out, fault_at: u32, stats: &mut Stats) -> Option<u64> {
         let mut bad = None;
@@ -89,7 +94,9 @@ impl Model for VecModel {
 
     fn next_state(&self, s: &McState, e: Edge) -> Option<McState> {
         let st = St { len: s.len, cap: s.cap, spare: s.spare };
+        self.mark(s, &e, 0);
         let out = self.runner.run(&st, &e, 0);
+        crate::crash::clear_current();
         let mut stats = self.stats.lock().unwrap();
         stats.edges += 1;
         *stats.families.entry(e.family().to_string()).or_insert(0) += 1;
@@ -102,7 +109,9 @@ impl Model for VecModel {
             let n = out.user_calls;
             drop(stats);
             for k in 1..=n {
+                self.mark(s, &e, k);
                 let fo = self.runner.run(&st, &e, k);
+                crate::crash::clear_current();
                 let mut stats = self.stats.lock().unwrap();
                 stats.fault_runs += 1;
                 if let Some(b) = self.classify(s, &e, &fo, k, &mut stats) { bad = Some(b); break; }
